@@ -24,7 +24,8 @@ NestedClash(a, b) ==
 KnownShape(h) ==
   IF \E r1, r2 \in AllReqs(h) : Key(r1.name) = Key(r2.name) /\ NestedClash(r1.kind, r2.kind)
   THEN "nested-instance-merge"
-  ELSE IF OwnerNameShape(h) THEN "owner-import-name" ELSE ""
+  ELSE IF OwnerNameShape(h) THEN "owner-import-name"
+  ELSE IF WorldShape(h) THEN "component-or-module-requirement" ELSE ""
 
 ReplayLine ==
   LET ok == ~Fails(hist)
@@ -32,11 +33,20 @@ ReplayLine ==
   IN [h |-> hist, ok |-> ok,
       imports |-> [s \in {i.name : i \in imps} |-> EmitKind(hist, (CHOOSE i \in imps : i.name = s).kind)],
       canon |-> IF ok THEN ContractCanon(hist) ELSE <<>>,
-      kf |-> KnownShape(hist)]
+      kf |-> KnownShape(hist),
+      \* for the histories KF28 excuses: what the Impl layer (merge_world / merge_module_type as they are) yields
+      impl |-> IF WorldShape(hist)
+               THEN [ok |-> ~st.failed,
+                     imports |-> IF st.failed THEN <<>>
+                                 ELSE [s \in {st.imports[i].n.s : i \in DOMAIN st.imports} |->
+                                         EmitKind(hist, ImportKind(st, st.imports[CHOOSE i \in DOMAIN st.imports : st.imports[i].n.s = s]))]]
+               ELSE <<>>]
 
 EmitReplay == hist # <<>> => PrintT(<<"REPLAY", ToJson(ReplayLine)>>)
 
 FocusAll == 1..Len(AG_Contribs)
+\* everything but the component- / module-kinded requirements (those: FocusWorld)
+FocusMain == 1..44
 \* the version / conflict core: three versions of one track, another track, unversioned, nested
 FocusCore == {1, 2, 3, 4, 5, 6, 7, 10, 12, 14, 25, 26}
 FocusUses == {1, 5, 29, 30, 31, 32, 33, 34, 35, 36, 37}
@@ -44,4 +54,6 @@ FocusUses == {1, 5, 29, 30, 31, 32, 33, 34, 35, 36, 37}
 FocusBuild == {1, 4, 5, 6, 38}
 \* one signature through one or two type definitions; a resource required alone and through a user
 FocusShape == {1, 2, 5, 8, 29, 32, 37, 39, 40, 41, 42, 43, 44}
+\* component- and module-kinded requirements (API level)
+FocusWorld == 45..58
 ====
